@@ -95,11 +95,12 @@ structure Common (N : Nat) where
 
 def parse3 (s : String) : Option (Array (Array Fix)) := parseRows parseFix s
 
-def runModelLle {N : Nat} (hN : 0 < N) (fs : List (String × String)) (κ : Mat N N Fix) (nb : Nb N) :
+def runModelLle {N : Nat} (hN : 0 < N) (fs : List (String × String)) (κ : Mat N N Fix) (nb : Nb N) (kexp : Int := 0) :
     E (Array (Array Fix) × Nat × Fix × Option String) := do
   let shift ← needFix fs "shift"
   let tshift ← needFix fs "tshift"
-  let wraw ← needSamples fs "wraw" N (parseVecA parseFix)
+  -- κ is the kernel divided by 2^kexp: the solve of the (homogeneous) local system scales by 2^kexp, exactly
+  let wraw ← needSamples fs "wraw" N (parseVecScaled kexp)
   if !(wraw.all (·.size == nb.k)) then throw "wraw shape"
   match lleContract κ nb tshift wraw with
   | some "SINGULAR" => throw "SKIP:singular-local-system (coincident samples)"
@@ -126,7 +127,8 @@ def hlleRefProjD {k d : Nat} (thr : Fix) (U : Mat k d Fix) : DMat k k Fix :=
 /-- `(M, stored entries, summand scale, note)`: for HLLE `M` is the REFERENCE matrix (hand-written basis); `note` is set
     when the model built from the generated index expressions differs from it (the generated expressions do not describe
     the property's estimator: the tie through `Gen/HlleIndex.lean` is broken) -/
-def runModelEig {N : Nat} (hN : 0 < N) (fs : List (String × String)) (κ : Mat N N Fix) (nb : Nb N) (hlle : Bool) :
+def runModelEig {N : Nat} (hN : 0 < N) (fs : List (String × String)) (κ : Mat N N Fix) (nb : Nb N) (hlle : Bool)
+    (kexp : Int := 0) :
     E (Array (Array Fix) × Nat × Fix × Option String) := do
   let d ← needNat fs "d"
   if hlle then
@@ -137,7 +139,8 @@ def runModelEig {N : Nat} (hN : 0 < N) (fs : List (String × String)) (κ : Mat 
     | none => pure ()
   let rsk ← needFix fs "rsk"
   let U ← needSamples fs "U" N parse3
-  let ev ← needSamples fs "ev" N (parseVecA parseFix)
+  -- κ is the kernel divided by 2^kexp: local eigenvalues scale by 2^-kexp (eigenvectors, rsk, M do not)
+  let ev ← needSamples fs "ev" N (parseVecScaled (-kexp))
   match eigContract κ nb d rsk U ev with
   | .bad e => throw ("CONTRACT:" ++ e)
   | .degenerate i => throw s!"SKIP:degenerate-local-spectrum sample {i}"
